@@ -111,6 +111,8 @@ pub open spec fn keys_ok() -> bool {
     &&& vstd::std_specs::hash::obeys_key_model::<LuaTypeOwner>()
     &&& vstd::std_specs::hash::obeys_key_model::<WorkspaceId>()
     &&& vstd::std_specs::hash::obeys_key_model::<String>()
+    &&& vstd::std_specs::hash::obeys_key_model::<LuaPropertyId>()
+    &&& vstd::std_specs::hash::obeys_key_model::<LuaSemanticDeclId>()
 }
 
 // ---- std contracts (trusted, restated from the std documentation) ---------------------------------
@@ -178,9 +180,36 @@ impl LuaTypeOwner {
 }
 //@@ LuaDeclLocation
 //@@ LuaTypeDecl
+/// helper of rule `vec-extend-vec`. std (`impl Extend<T> for Vec<T>`, `IntoIterator for Vec<T>`): "Extends a collection with the
+/// contents of an iterator"; a Vec is iterated front to back, each element once: the elements of `w` are appended in order
+#[verifier::external_body]
+pub fn vx_vec_extend<T>(v: &mut Vec<T>, w: Vec<T>)
+    ensures final(v)@ == old(v)@ + w@,
+{ v.extend(w) }
+impl LuaTypeDecl {
+    //@@ LuaTypeDecl::get_id
+    //@@ LuaTypeDecl::merge_decl
+}
 //@@include c10_remove2/type_spec.rs
 //@@ LuaTypeIndex
 //@@include c10_remove2/type_post.rs
+//@@include c10_writers/type_writers_spec.rs
+pub open spec fn names_frame(o: &LuaTypeIndex, n: &LuaTypeIndex) -> bool {
+    n.global_name_type_map == o.global_name_type_map && n.internal_name_type_map == o.internal_name_type_map && n.local_name_type_map == o.local_name_type_map
+}
+impl<N> InFiled<N> {
+    //@@ InFiled::new
+}
+impl LuaTypeIndex {
+    //@@ LuaTypeIndex::new
+    //@@ LuaTypeIndex::add_file_namespace
+    //@@ LuaTypeIndex::add_file_using_namespace
+    //@@ LuaTypeIndex::index_type_decl_name
+    //@@ LuaTypeIndex::add_type_decl
+    //@@ LuaTypeIndex::add_generic_params
+    //@@ LuaTypeIndex::add_super_type
+    //@@ LuaTypeIndex::bind_type
+}
 
 // ---- extracted from /repo: the member index and its writers --------------------------------------------
 //@@ LuaMemberIndex
@@ -198,6 +227,83 @@ impl LuaMemberIndex {
     //@@ LuaMemberIndex::set_member_owner
     //@@ LuaMemberIndex::add_member_to_owner
     //@@ LuaMemberIndex::add_member
+}
+
+// ---- extracted from /repo: the operator index and its writer ---------------------------------------------
+//@@include c10_writers/operator_writers_spec.rs
+//@@ LuaOperatorIndex
+pub open spec fn owf(s: &LuaOperatorIndex) -> bool { op_wf(s.operators@, s.type_operators_map@, s.in_filed_operator_map@) }
+impl LuaOperatorIndex {
+    //@@ LuaOperatorIndex::new
+    //@@ LuaOperatorIndex::add_operator
+}
+
+// ---- extracted from /repo: the metatable index and its writer ----------------------------------------------
+/// (text of unit c10_remove2) metatable index invariant established by its only writer (`analyze_setmetatable` adds
+/// `InFiled::new(file_id, table_range) -> InFiled::new(file_id, metatable_range)` with one and the same file_id)
+pub open spec fn metatable_cofiled(m: Map<InFiled<TextRange>, InFiled<TextRange>>) -> bool {
+    forall|k: InFiled<TextRange>| #[trigger] m.contains_key(k) ==> m[k].file_id == k.file_id
+}
+//@@ LuaMetatableIndex
+impl LuaMetatableIndex {
+    //@@ LuaMetatableIndex::new
+    //@@ LuaMetatableIndex::add
+}
+// the call site of `LuaMetatableIndex::add`: the statement slice of `analyze_setmetatable` that registers the pair
+/// emmylua_parser AST nodes: opaque; `get_range` (rowan text range of the node) without contract
+#[verifier::external_body] pub struct LuaExpr { _p: () }
+#[verifier::external_body] pub struct LuaTableExpr { _p: () }
+impl LuaExpr { #[verifier::external_body] pub fn get_range(&self) -> TextRange { unimplemented!() } }
+impl LuaTableExpr { #[verifier::external_body] pub fn get_range(&self) -> TextRange { unimplemented!() } }
+#[verifier::external_body] pub struct AnalyzeContext { _p: () }
+//@@ DbIndex
+impl DbIndex {
+    //@@ DbIndex::get_metatable_index_mut
+}
+//@@ LuaAnalyzer
+//@@ analyze_setmetatable::register
+
+// ---- extracted from /repo: the property index and its writers ----------------------------------------------
+//@@ LuaSignatureId
+//@@ LuaPropertyId
+impl LuaPropertyId {
+    //@@ LuaPropertyId::new
+}
+//@@ LuaSemanticDeclId
+impl Clone for LuaSemanticDeclId { #[verifier::external_body] fn clone(&self) -> (r: Self) ensures r == *self { unimplemented!() } }
+// payloads of a property: opaque
+#[verifier::external_body] #[derive(Clone, Copy)] pub struct VisibilityKind { _p: () }
+#[verifier::external_body] pub struct LuaVersionCondition { _p: () }
+#[verifier::external_body] pub struct PropertyDeclFeature { _p: () }
+#[verifier::external_body] pub struct LuaAttributeUse { _p: () }
+//@@ LuaCommonProperty
+/// the setters of one property value: they write that value only (`&mut self` of LuaCommonProperty): NO contract
+impl LuaCommonProperty {
+    #[verifier::external_body] pub fn new() -> Self { unimplemented!() }
+    #[verifier::external_body] pub fn add_extra_description(&mut self, description: String) { unimplemented!() }
+    #[verifier::external_body] pub fn add_extra_source(&mut self, source: String) { unimplemented!() }
+    #[verifier::external_body] pub fn add_extra_deprecated(&mut self, message: Option<String>) { unimplemented!() }
+    #[verifier::external_body] pub fn add_extra_version_cond(&mut self, conds: Vec<LuaVersionCondition>) { unimplemented!() }
+    #[verifier::external_body] pub fn add_extra_tag(&mut self, tag: String, content: String) { unimplemented!() }
+    #[verifier::external_body] pub fn add_decl_feature(&mut self, feature: PropertyDeclFeature) { unimplemented!() }
+    #[verifier::external_body] pub fn add_attribute_use(&mut self, attribute_use: LuaAttributeUse) { unimplemented!() }
+}
+//@@include c10_writers/property_writers_spec.rs
+//@@ LuaPropertyIndex
+pub open spec fn pwf(s: &LuaPropertyIndex) -> bool { prop_wf(s.property_owners_map@, s.in_filed_owner@) }
+impl LuaPropertyIndex {
+    //@@ LuaPropertyIndex::new
+    //@@ LuaPropertyIndex::get_or_create_property
+    //@@ LuaPropertyIndex::add_owner_map
+    //@@ LuaPropertyIndex::add_description
+    //@@ LuaPropertyIndex::add_visibility
+    //@@ LuaPropertyIndex::add_source
+    //@@ LuaPropertyIndex::add_deprecated
+    //@@ LuaPropertyIndex::add_version
+    //@@ LuaPropertyIndex::add_see
+    //@@ LuaPropertyIndex::add_other
+    //@@ LuaPropertyIndex::add_decl_feature
+    //@@ LuaPropertyIndex::add_attribute_use
 }
 
 } // verus!
